@@ -9,7 +9,11 @@ import ttconv.style_properties as sp
 
 SP = sp.StyleProperties
 TIMES = [None, None, Fraction(0), Fraction(1), Fraction(3, 2), Fraction(2), Fraction(5), Fraction(7, 3), Fraction(10)]
-TEXTS = ["Hello", "a b", " lead", "trail ", "  two  spaces  ", "x\ny", "\n", " ", "", "tab\tbed", "été", "<&>"]
+TEXTS = ["Hello", "a b", " lead", "trail ", "  two  spaces  ", "x\ny", "\n", " ", "", "tab\tbed", "été", "<&>",
+         # characters that Python calls white space (str.isspace, \s, str.split, str.strip, str.splitlines) but XML / TTML do not:
+         # they are ordinary characters of the text (only TAB, LF, CR and SPACE are white space)
+         "a\u00a0\u00a0b", "\u3000lead", "trail\u3000", "x\u2003 y", " \u00a0 ", "p\u2028q", "v\x0bw\x0cz", "n\u0085m\u2029", "\u3000", "e\x1c\x1d\x1ef", "\u202f9",
+         "\U0001f600 \U00020000"]
 
 
 class Gen:
@@ -59,6 +63,7 @@ class Gen:
       b.add_animation_step(m.DiscreteAnimationStep(SP.Color, r.choice([None, Fraction(1)]), r.choice([None, Fraction(3)]), sp.NamedColors.red.value))
     if self.scope["styles"] and r.random() < 0.2:
       b.set_style(SP.Color, sp.NamedColors.lime.value)
+    self.display(b)          # tts:display on the line break itself, specified or animated
 
   def simple_styles(self, e):
     """a few inheritable / non-inheritable styles that writers look at"""
